@@ -19,7 +19,10 @@ warnings.simplefilter("ignore")
 def mutate_tree(g, t):
     """one atom changed: an argument, a callable, a class, an operator, operand order (commuted: equal)"""
     r = g.r
-    kind = r.choice(["arg", "ctor", "cls", "commute", "op", "same"])
+    kind = r.choice(["arg", "ctor", "cls", "commute", "op", "same", "dup"])
+    if t[0] == "bin" and kind == "dup":
+        # a combination whose two operands are equal, against one sharing only one of them
+        return ("bin", t[1], t[2], copy.deepcopy(t[2])), "dup-child"
     if t[0] == "bin":
         if kind == "commute":
             return ("bin", t[1], t[3], t[2]), "commuted"
@@ -54,6 +57,11 @@ def mutate_tree(g, t):
         if ctor in swaps:
             return ("leaf", cls, swaps[ctor], args, kwargs), "ctor"
     return copy.deepcopy(t), "rebuilt"
+
+
+def gen_other_leaf(g, like):
+    t = terms.gen_leaf(g, "value", hostile_p=0.0)
+    return t
 
 
 def mutate_part(g, p):
@@ -106,7 +114,11 @@ def eq_obs(a, b):
 
 def make_cond_case(g, t):
     r = g.r
-    m, what = mutate_tree(g, t)
+    if t[0] == "bin" and r.random() < 0.15:
+        t = ("bin", t[1], t[2], copy.deepcopy(t[2]))        # x = a op a
+        m, what = ("bin", t[1], t[2], gen_other_leaf(g, t[2])), "dup-vs-distinct"
+    else:
+        m, what = mutate_tree(g, t)
     c = Case("eq_cond", {"x": terms.tree_desc(t), "y": terms.tree_desc(m), "mutation": what})
     c.py = ("from valida.conditions import *\nimport pathlib\n"
             f"x = {terms.tree_py(t)}\ny = {terms.tree_py(m)}\nprint(x == y, y == x)")
